@@ -157,6 +157,12 @@ def _id_writers(ctx, R, roles, T):
                     for d in df.node_defs.get(n, []):
                         if d.var == k and d.kind == "assign":
                             v = unawait(d.value)
+                            if isinstance(v, ast.Name) and not d.path:
+                                # captured through a local: follow its unique definition
+                                d2 = df.unique_def(n, v.id)
+                                if d2 is not None and d2.kind == "assign":
+                                    d = d2
+                                    v = unawait(d.value)
                             cs = ctx.cg.site(v) if isinstance(v, ast.Call) else None
                             if cs is not None and roles.pump in cs.callees:
                                 exp = fold_cmd_list(T, f, n, cs.bind(roles.pump).get(roles.pump.call_params[0]))
